@@ -730,6 +730,33 @@ static void serfmt_rec(struct json_object *o, const char *f)
 	else if (json_object_is_type(o, json_type_object)) { json_object_object_foreach(o, k, v) { (void)k; serfmt_rec(v, f); } }
 }
 static void cmd_serfmt(int nt, char **t) { char *f = keyarg(t[2]); (void)nt; serfmt_rec(H[hidx(t[1])], f); free(f); ob_puts(&out, "= ok"); }
+/* LPC <flags> <depth> <chunk> <hex>   incremental parse (chunks of <chunk> bytes, then the terminating NUL) with the locale
+ * monitors around EVERY call; reports the final outcome and the AND of the per-call monitors */
+static void cmd_lpc(int nt, char **t)
+{
+	size_t n, off = 0; unsigned char *b; struct json_tokener *tok; struct json_object *o = NULL; int flags = (int)L(t[1]), depth = (int)L(t[2]); size_t chunk = (size_t)L(t[3]);
+	int same = 1, fmt = 1, sd = 1; long live = 0, foreign = 0, created = 0, freed = 0; (void)nt;
+	b = unhex(t[4], &n);
+	tok = depth > 0 ? json_tokener_new_ex(depth) : json_tokener_new();
+	json_tokener_set_flags(tok, flags);
+	if (chunk < 1) chunk = 1;
+	while (off < n + 1) {
+		size_t len = chunk; char *buf; struct locobs x, y;
+		if (len > n + 1 - off) len = n + 1 - off;
+		buf = exact_copy(b + off, len);   /* b has n bytes + a NUL */
+		loc_observe(&x);
+		o = json_tokener_parse_ex(tok, buf, (int)len);
+		loc_observe(&y);
+		free(buf);
+		same &= x.h == y.h; fmt &= !strcmp(x.fmt, y.fmt); sd &= x.sd == y.sd;
+		live += y.live - x.live; foreign += y.foreign - x.foreign; created += y.created - x.created; freed += y.freed - x.freed;
+		off += len;
+		if (json_tokener_get_error(tok) != json_tokener_continue) break;
+	}
+	emit_parse_result(tok, o);
+	ob_printf(&out, " | loc_same=%d fmt_same=%d strtod_same=%d loc_live=%ld created=%ld freed=%ld foreign=%ld", same, fmt, sd, live, created, freed, foreign);
+	json_object_put(o); json_tokener_free(tok); free(b);
+}
 static void cmd_ls(int nt, char **t)
 {
 	int h = hidx(t[1]); int flags = (int)L(t[2]); size_t len = 0; const char *sx; struct locobs x, y; (void)nt;
@@ -848,6 +875,7 @@ static void dispatch(int nt, char **t)
 	else if (!strcmp(c, "LOC")) cmd_loc(nt, t);
 	else if (!strcmp(c, "LP")) cmd_lp(nt, t);
 	else if (!strcmp(c, "LS")) cmd_ls(nt, t);
+	else if (!strcmp(c, "LPC")) cmd_lpc(nt, t);
 	else if (!strcmp(c, "DFMT")) cmd_dfmt(nt, t);
 	else if (!strcmp(c, "SERFMT")) cmd_serfmt(nt, t);
 	else if (!strcmp(c, "FDW")) cmd_fdw(nt, t);
@@ -885,6 +913,7 @@ static int flush_each;
 int main(int argc, char **argv)
 {
 	flush_each = getenv("VF_FLUSH") != NULL;
+	vf_watchdog_init();
 	char *line = NULL; size_t cap = 0; ssize_t k;
 	FILE *in = stdin;
 	if (argc > 1) { in = fopen(argv[1], "r"); if (!in) { perror(argv[1]); return 3; } }
@@ -919,6 +948,7 @@ int main(int argc, char **argv)
 			if (out.n > (1 << 15)) flush_out();
 			continue;
 		}
+		vf_progress++;
 		dispatch(nt, tokv);
 		ob_putc(&out, '\n');
 		if (flush_each || out.n > (1 << 15)) flush_out();
